@@ -130,4 +130,53 @@ ContainsSimplePinned(self, other) ==
 RefutedContainsSimplePinned == U2(LAMBDA ra, rb :
     (~Pinch(ra) /\ ~Pinch(rb) /\ Kind(ra) = "S" /\ Kind(rb) = "S" /\ ClassOf(ra, rb) = "T")
         => ContainsSimplePinned(ra, rb) = RSubset(rb, ra))
+
+\* --- grouping of result curves into components and holes (C06, C19): ShapeFromJordans /
+\* DivideConnecteds.  Each curve is the boundary of the simple shape on its left; take the curve
+\* of largest |area|, put with it every remaining curve that is mutually contained with ALL
+\* curves already in the group (curve j in shape of c and curve c in shape of j), recurse on
+\* the rest.  Theorem: the groups are exactly the connected components of the region.
+LeftCell(lp) ==   \* the cell to the left of the first edge of the loop
+    LET pa == lp[1]  pb == lp[2] IN
+    IF pa[2] = pb[2] THEN (IF pb[1] > pa[1] THEN <<pa[1] + 1, pa[2] + 1>> ELSE <<pa[1], pa[2]>>)
+    ELSE (IF pb[2] > pa[2] THEN <<pa[1], pa[2] + 1>> ELSE <<pa[1] + 1, pa[2]>>)
+RightCell(lp) ==
+    LET pa == lp[1]  pb == lp[2] IN
+    IF pa[2] = pb[2] THEN (IF pb[1] > pa[1] THEN <<pa[1] + 1, pa[2]>> ELSE <<pa[1], pa[2] + 1>>)
+    ELSE (IF pb[2] > pa[2] THEN <<pa[1] + 1, pa[2] + 1>> ELSE <<pa[1], pa[2]>>)
+\* is the cell in the simple shape bounded by loop lc ?  (winding decision table, closed)
+InSimple(cc, lc) == SimpleContains(lc, cc, TRUE)
+\* curve lj lies in the simple shape of lc (the loops of a pinch-free region never touch, so one
+\* cell beside lj decides)
+CurveIn(lj, lc) == InSimple(LeftCell(lj), lc) /\ InSimple(RightCell(lj), lc)
+AbsArea2(lp) == IF LoopArea2(lp) < 0 THEN -LoopArea2(lp) ELSE LoopArea2(lp)
+RECURSIVE GrowGroup(_,_,_)
+\* (group so far, candidates still to examine, rejected)
+GrowGroup(grp, cand, ext) ==
+    IF cand = {} THEN <<grp, ext>>
+    ELSE LET big == CHOOSE lp \in cand : \A l2 \in cand : AbsArea2(lp) >= AbsArea2(l2)
+             rest == cand \ {big}
+             inner == {lj \in rest : \A lc \in grp \cup {big} : CurveIn(lj, lc) /\ CurveIn(lc, lj)}
+         IN GrowGroup(grp \cup {big}, inner, ext \cup (rest \ inner))
+RECURSIVE Groups(_)
+Groups(ls) == IF ls = {} THEN {}
+              ELSE LET gg == GrowGroup({}, ls, {}) IN {gg[1]} \cup Groups(gg[2])
+\* expected: loops grouped by the component of the region that lies on their left
+CompOfCell(cc, ra) == CHOOSE cp \in CompsP(PSofReg(ra)) : PatchOf[cc] \in cp
+ThmGrouping == U1(LAMBDA ra : (ra \notin {0, Full} /\ ~Pinch(ra)) =>
+    Groups(Loops(ra)) = {{lp \in Loops(ra) : CompOfCell(LeftCell(lp), ra) = cp} : cp \in CompsP(PSofReg(ra))})
+\* the variant of a seeded change (compare a candidate only with the biggest curve of the group)
+\* is refuted when rings sit inside the holes of rings (universe U4nest)
+RECURSIVE GrowGroupWeak(_,_,_)
+GrowGroupWeak(grp, cand, ext) ==
+    IF cand = {} THEN <<grp, ext>>
+    ELSE LET big == CHOOSE lp \in cand : \A l2 \in cand : AbsArea2(lp) >= AbsArea2(l2)
+             first == IF grp = {} THEN big ELSE CHOOSE lp \in grp : \A l2 \in grp : AbsArea2(lp) >= AbsArea2(l2)
+             rest == cand \ {big}
+             inner == {lj \in rest : CurveIn(lj, first) /\ CurveIn(first, lj)}
+         IN GrowGroupWeak(grp \cup {big}, inner, ext \cup (rest \ inner))
+RECURSIVE GroupsWeak(_)
+GroupsWeak(ls) == IF ls = {} THEN {} ELSE LET gg == GrowGroupWeak({}, ls, {}) IN {gg[1]} \cup GroupsWeak(gg[2])
+RefutedGroupingWeak == U1(LAMBDA ra : (ra \notin {0, Full} /\ ~Pinch(ra)) =>
+    GroupsWeak(Loops(ra)) = {{lp \in Loops(ra) : CompOfCell(LeftCell(lp), ra) = cp} : cp \in CompsP(PSofReg(ra))})
 =============================================================================
